@@ -280,7 +280,7 @@ func genCommandLine(g *G) Step {
 		case 0:
 			return inv(args...)
 		case 1:
-			return goit(append(args, g.Pick([]string{"HEAD", "HEAD@{}", "HEAD@{x}", "HEAD@{-1}", "xHEAD@{0}", "HEAD@{0}x", "HEAD@{99}", "main", "HEAD@{1}{2}", "HEAD@{00}", "HEAD@{+1}"}, "pos"))...)
+			return goit(append(args, g.Pick([]string{"HEAD", "HEAD@{}", "HEAD@{x}", "HEAD@{-1}", "xHEAD@{0}", "HEAD@{0}x", "HEAD@{99}", "main", "HEAD@{1}{2}", "HEAD@{00}", "HEAD@{+1}", "head@{0}", "Head@{1}", "HEAD@{0}\n", " HEAD@{0}", "HEAD@{0} "}, "pos"))...)
 		default:
 			return goit(append(args, fmt.Sprintf("HEAD@{%d}", g.Int(0, reflogLen(g)+1, "pos")))...)
 		}
@@ -293,6 +293,9 @@ func genCommandLine(g *G) Step {
 		case 1:
 			return inv("log", "-n", g.Pick([]string{"x", "1.5", "", "1e3", "99999999999999999999"}, "badn"))
 		default:
+			if g.Chance(15, "hugeN") {
+				return goit("log", "-n", g.Pick([]string{"2147483648", "4611686018427387904", "9223372036854775807", "-9223372036854775808"}, "huge"))
+			}
 			return goit("log", "-n", fmt.Sprint(g.Int(-2, 12, "n")))
 		}
 	case 10:
